@@ -7,6 +7,8 @@ open SqlObjVerif.Ddl
 open SqlObjVerif.PyDdl hiding Str isUpperC
 open SqlObjVerif.PyDdl.Extracted
 
+variable {x : ClsX}
+
 /-- the hand model's CREATE TABLE body: the id column and the columns, indented and separated -/
 def colsModel (d : Dialect) (c : Caps) (decl : Decl) : Option Str :=
   match idText TX d decl, allSome (decl.cols.map (colText TX d c decl.style)) with
@@ -67,16 +69,16 @@ theorem allStr_map_str' (l : List Str) : allStr (List.map Val.str l) = some l :=
 set_option maxHeartbeats 1000000 in
 /-- **`DBAPI.createColumns` translated = the body of the hand model's CREATE TABLE text** (or both refuse) -/
 theorem createColumns_agrees (n : Nat) (d : Dialect) (c : Caps) (decl : Decl) (c0 : Val) :
-    agrees (callN prog ddlI (n + 8) (.meth (connCls d) M_createColumns) [connV d c, soClassV decl c0])
+    agrees (callN prog ddlI (n + 8) (.meth (connCls d) M_createColumns) [connV d c, soClassV decl c0 x])
       (colsModel d c decl) := by
   have hres : prog.resolve (.meth (connCls d) M_createColumns) = some DBAPI__createColumns_fn := by cases d <;> rfl
   rw [callX_succ _ _ _ _ hres]
   obtain ⟨i, hi⟩ := idText_some d decl
-  have hid : callN prog ddlI (n + 7) (.meth (connCls d) M_createIDColumn) [connV d c, soClassV decl c0] = .ok (.str i) := by
+  have hid : callN prog ddlI (n + 7) (.meth (connCls d) M_createIDColumn) [connV d c, soClassV decl c0 x] = .ok (.str i) := by
     rw [createIDColumn_eq (n + 5), hi]; rfl
   have hcols := collect_cols
     (fun col => callN prog ddlI (n + 7) (.meth (connCls d) M_createColumn)
-      [connV d c, soClassV decl c0, colV TX decl.style decl.tableName c0 col])
+      [connV d c, soClassV decl c0 x, colV TX decl.style decl.tableName c0 col])
     (colText TX d c decl.style) decl.cols
     (fun col _ => by rw [createColumn_fwd (n + 6)]; exact col_createSQL (n + 1) decl.style decl.tableName c0 col d c)
   unfold colsModel
